@@ -167,7 +167,8 @@ def oracle(case):
                              % (SEC[sec], k, e["orig"], f, g[f], e[f], mc, text))
                     break
     exp_other = desc.get("other") or ""
-    exp_lines = [ln.strip() for ln in exp_other.splitlines()]
+    # the text is the list of its lines, an empty last line (text ending in a line break) included
+    exp_lines = [ln.strip() for ln in exp_other.split("\n")] if exp_other != "" else []
     got_lines = got["sections"]["Other"]["text"]
     if got_lines != exp_lines:
         out.fail("Other.text|v%s" % version, "~Other lines read %r, expected %r\n%s" % (got_lines, exp_lines, text))
@@ -299,6 +300,8 @@ def cases(draw):
         # paragraphs: empty lines between the first and the last line belong to the text
         k = draw(st.integers(1, len(other_lines) - 1))
         other_lines[k:k] = [""] * draw(st.integers(1, 2))
+    if other_lines and draw(st.integers(0, 3)) == 0:
+        other_lines += [""] * draw(st.integers(1, 3))  # the text ends with empty lines
     desc = dict(version=vextra, well=well, params=params, curves=curves, other="\n".join(other_lines),
                 strt_unit=draw(st.sampled_from(["m", "M", "FT", ""])), null=draw(st.sampled_from([["f", "-9999.25"], ["f", "-999.25"], ["i", -999]])))
     case = dict(desc=desc, version=version, mnemonic_case=draw(st.sampled_from(["preserve", "upper", "lower"])),
